@@ -156,11 +156,11 @@ func main() {
 				if !ok {
 					return "bad-op"
 				}
-				sts, svc, rep, headless, err := operator.VerifDeployed(c)
+				sts, svc, rep, headless, env, err := operator.VerifDeployed(c)
 				if err != nil {
 					return "err"
 				}
-				return fmt.Sprintf("deployed sts=%s svc=%s replicas=%d headless=%s", hx(sts), hx(svc), rep, hx(headless))
+				return fmt.Sprintf("deployed sts=%s svc=%s replicas=%d headless=%s env=%s", hx(sts), hx(svc), rep, hx(headless), hx(env))
 			}
 			return "bad-op"
 		}()
